@@ -1,8 +1,24 @@
-"""Translator for C13: regenerates lean/OPM/Gen/TickTable.lean from the source of Engine.tick,
-Engine.read_process_image and Engine.write_process_image (AST): every call statement with the
-exception classes of the `try` handlers that enclose it and whether every such handler calls
-`set_error_state`.  Also the handlers of PInterpreter.tick / visit (the wrapper that turns an
-instruction failure into `node.failed`)."""
+"""Translator for C13: regenerates lean/OPM/Gen/TickTable.lean from the source (AST) of
+Engine.tick, Engine.read_process_image, Engine.write_process_image, Engine.set_error_state,
+Engine._apply_safe_state, EventEmitter.emit_on_method_error and PInterpreter.visit.
+
+Tables
+* `allCalls`   — EVERY call expression of those Engine functions (whatever the callee looks like:
+                 `self.…`, `tag.set_value`, `logger.error`, `register_values.append`, calls in `for`/`if`
+                 heads, in comprehensions, in handler bodies), in evaluation order, with the exception
+                 classes of the `try` bodies that enclose it and whether it sits inside an `except` body
+                 (where the handlers of that same `try` do not protect it).
+* `tickPhases` — the calls of one tick in source order, `read_process_image`/`write_process_image`
+                 inlined: callee, guard condition of the enclosing `if`s, enclosing catches, what the
+                 innermost handler does (`set_error_state` unconditionally as last statement / only
+                 `if not self.has_error_state()` / something else) and whether it `return`s.
+                 Pure container/builtin/logging calls are not phases (the Lean side checks that no call
+                 that may raise is missing from the phases).
+* `setErrorCalls` — callees of `set_error_state` in source order (the model's handler mirrors it).
+* `emitSwallows`  — every listener call of `emit_on_method_error` is inside `try/except Exception`
+                 whose handler only logs.
+* `visitWrapperMarksFailed` — the wrapper `PInterpreter.visit` turns any Exception of an instruction
+                 into `node.failed = True; _last_error = ex, node`."""
 from __future__ import annotations
 
 import ast
@@ -11,6 +27,24 @@ from pathlib import Path
 from vp import core
 
 OUT = core.LEAN / "OPM" / "Gen" / "TickTable.lean"
+
+# calls that are not phases of the model: containers / builtins / logging (classified again, explicitly, in Lean)
+STRUCTURAL_SUFFIX = (".values", ".append", ".keys", ".items")
+STRUCTURAL_NAMES = ("enumerate", "isinstance", "len", "str", "list", "range")
+STRUCTURAL_PREFIX = ("logger.", "frontend_logger.")
+INLINED = {"self.read_process_image": "read", "self.write_process_image": "write"}
+
+COND_TOKENS = {
+    "": "always",
+    "not self._running": "notRunning",
+    "self._runstate_started": "started",
+    "self._runstate_started and (not self._runstate_paused) and (not self._runstate_holding) and (not self._runstate_stopping)":
+        "runnable",
+    # write_process_image(force=False): `if not started and not force: return` in front of everything else
+    "not (not self._runstate_started and (not force))": "started",
+    # per-register option (the conversion callback is called for the registers that declare one)
+    "'to_tag' in r.options": "always",
+}
 
 
 def dotted(n: ast.AST) -> str:
@@ -33,45 +67,107 @@ def handler_types(h: ast.ExceptHandler) -> list[str]:
     return [dotted(h.type)]
 
 
-def calls_set_error(body: list[ast.stmt]) -> bool:
-    for st in body:
-        for n in ast.walk(st):
-            if isinstance(n, ast.Call) and dotted(n.func).endswith("set_error_state"):
-                return True
-    return False
+def calls_in_order(node: ast.AST) -> list[ast.Call]:
+    """Call expressions below `node` in evaluation order (arguments before the call itself)."""
+    out: list[ast.Call] = []
+
+    def visit(n: ast.AST):
+        for c in ast.iter_child_nodes(n):
+            visit(c)
+        if isinstance(n, ast.Call):
+            out.append(n)
+    visit(node)
+    return out
 
 
-def sites_of(fn: ast.FunctionDef) -> list[tuple[str, list[str], bool]]:
-    out: list[tuple[str, list[str], bool]] = []
+def is_structural(name: str) -> bool:
+    return name.endswith(STRUCTURAL_SUFFIX) or name in STRUCTURAL_NAMES or name.startswith(STRUCTURAL_PREFIX)
 
-    def walk(stmts: list[ast.stmt], catches: list[str], sets: bool):
+
+def handler_kind(h: ast.ExceptHandler) -> tuple[str, bool]:
+    """(kind, returns): what the handler body does.
+    setError       — last statement (before an optional `return`) is `self.set_error_state(<exc>)`, every other
+                     call in the body is logging;
+    setErrorIfNone — `if not self.has_error_state(): …; self.set_error_state(<exc>)` (then an optional `return`);
+    other          — anything else."""
+    body = list(h.body)
+    returns = False
+    if body and isinstance(body[-1], ast.Return) and body[-1].value is None:
+        returns = True
+        body = body[:-1]
+    if not body:
+        return "other", returns
+
+    def is_set_error(st: ast.stmt) -> bool:
+        return (isinstance(st, ast.Expr) and isinstance(st.value, ast.Call)
+                and dotted(st.value.func) == "self.set_error_state" and len(st.value.args) == 1
+                and isinstance(st.value.args[0], ast.Name) and st.value.args[0].id == h.name)
+
+    def only_logging(stmts: list[ast.stmt]) -> bool:
+        return all(is_structural(dotted(c.func)) for st in stmts for c in calls_in_order(st))
+
+    if is_set_error(body[-1]) and only_logging(body[:-1]):
+        return "setError", returns
+    if len(body) == 1 and isinstance(body[0], ast.If) and not body[0].orelse \
+            and ast.unparse(body[0].test) == "not self.has_error_state()" \
+            and body[0].body and is_set_error(body[0].body[-1]) and only_logging(body[0].body[:-1]):
+        return "setErrorIfNone", returns
+    return "other", returns
+
+
+class FnTables:
+    def __init__(self, fn_name: str, fn: ast.FunctionDef):
+        self.fn_name = fn_name
+        self.calls: list[tuple[str, str, list[str], bool]] = []       # fn, callee, catches, inHandler
+        self.phases: list[dict] = []
+        self._walk(fn.body, [], False, [], ("none", False))
+
+    def _record(self, node: ast.AST, catches: list[str], in_handler: bool, conds: list[str], hk: tuple[str, bool]):
+        for c in calls_in_order(node):
+            name = dotted(c.func)
+            self.calls.append((self.fn_name, name, list(catches), in_handler))
+            if in_handler or is_structural(name):
+                continue
+            self.phases.append({"fn": self.fn_name, "callee": name, "cond": " and ".join(conds), "catches": list(catches),
+                                "handler": hk[0] if catches else "none", "returns": hk[1] if catches else False,
+                                "nargs": len(c.args) + len(c.keywords)})
+
+    def _walk(self, stmts: list[ast.stmt], catches: list[str], in_handler: bool, conds: list[str], hk: tuple[str, bool]):
+        conds = list(conds)
         for st in stmts:
             if isinstance(st, ast.Try):
                 types: list[str] = []
-                ok = True
+                kinds: list[tuple[str, bool]] = []
                 for h in st.handlers:
                     types += handler_types(h)
-                    ok = ok and calls_set_error(h.body)
-                walk(st.body, types + catches, (sets and ok) if catches else ok)
+                    kinds.append(handler_kind(h))
+                # one kind for the try: all handlers agree, else `other`
+                kind = kinds[0] if kinds and all(k == kinds[0] for k in kinds) else ("other", False)
+                if catches:      # a try nested in a try: not a shape the model knows
+                    kind = ("other", False)
+                self._walk(st.body, types + catches, in_handler, conds, kind)
                 for h in st.handlers:
-                    walk(h.body, catches, sets)
-                walk(st.orelse, catches, sets)
-                walk(st.finalbody, catches, sets)
-            elif isinstance(st, (ast.With, ast.For, ast.While)):
-                walk(st.body, catches, sets)
-                walk(getattr(st, "orelse", []), catches, sets)
+                    self._walk(h.body, catches, True, conds, hk)
+                self._walk(st.orelse, catches, in_handler, conds, hk)
+                self._walk(st.finalbody, catches, in_handler, conds, hk)
             elif isinstance(st, ast.If):
-                walk(st.body, catches, sets)
-                walk(st.orelse, catches, sets)
+                self._record(st.test, catches, in_handler, conds, hk)
+                t = ast.unparse(st.test)
+                if not st.orelse and len(st.body) == 1 and isinstance(st.body[0], ast.Return):
+                    conds.append(f"not ({t})")          # early return: everything after runs under the negation
+                    continue
+                self._walk(st.body, catches, in_handler, conds + [t], hk)
+                self._walk(st.orelse, catches, in_handler, conds + [f"not ({t})"], hk)
+            elif isinstance(st, (ast.For, ast.While)):
+                self._record(st.iter if isinstance(st, ast.For) else st.test, catches, in_handler, conds, hk)
+                self._walk(st.body, catches, in_handler, conds, hk)
+                self._walk(st.orelse, catches, in_handler, conds, hk)
+            elif isinstance(st, ast.With):
+                for it in st.items:
+                    self._record(it.context_expr, catches, in_handler, conds, hk)
+                self._walk(st.body, catches, in_handler, conds, hk)
             else:
-                # statement-level calls and calls on the right-hand side of assignments
-                for n in ast.walk(st):
-                    if isinstance(n, ast.Call):
-                        name = dotted(n.func)
-                        if name.startswith("self.") or name.startswith("r.options") or name.startswith("hwl."):
-                            out.append((name, list(catches), sets if catches else False))
-    walk(fn.body, [], True)
-    return out
+                self._record(st, catches, in_handler, conds, hk)
 
 
 def find_method(tree: ast.Module, cls: str, name: str) -> ast.FunctionDef:
@@ -87,15 +183,39 @@ def lean_str(s: str) -> str:
     return '"' + s.replace("\\", "\\\\").replace('"', '\\"') + '"'
 
 
-def generate() -> Path:
-    eng = ast.parse((core.REPO / "openpectus/engine/engine.py").read_text())
-    interp = ast.parse((core.REPO / "openpectus/lang/exec/pinterpreter.py").read_text())
-    tables = {
-        "tickSites": sites_of(find_method(eng, "Engine", "tick")),
-        "readSites": sites_of(find_method(eng, "Engine", "read_process_image")),
-        "writeSites": sites_of(find_method(eng, "Engine", "write_process_image")),
-        "interpTickSites": sites_of(find_method(interp, "PInterpreter", "tick")),
-    }
+def tables() -> dict:
+    import openpectus
+    root = Path(openpectus.__file__).resolve().parent
+    eng = ast.parse((root / "engine/engine.py").read_text())
+    interp = ast.parse((root / "lang/exec/pinterpreter.py").read_text())
+    events = ast.parse((root / "lang/exec/events.py").read_text())
+    fns = {name: FnTables(name, find_method(eng, "Engine", py)) for name, py in [
+        ("tick", "tick"), ("read", "read_process_image"), ("write", "write_process_image"),
+        ("set_error_state", "set_error_state"), ("apply_safe_state", "_apply_safe_state")]}
+    # flatten: the calls `self.read_process_image()` / `self.write_process_image()` of the tick are replaced by the
+    # phases of those functions (only when called without arguments, unguarded and unconditionally — otherwise
+    # the call stays a phase of its own and the Lean well-formedness check rejects the table)
+    phases: list[dict] = []
+    for ph in fns["tick"].phases:
+        sub = INLINED.get(ph["callee"])
+        if sub and ph["nargs"] == 0 and not ph["catches"] and ph["cond"] == "":
+            phases += fns[sub].phases
+        else:
+            phases.append(ph)
+    all_calls = [c for f in fns.values() for c in f.calls]
+    set_error_calls = [c[1] for c in fns["set_error_state"].calls if not is_structural(c[1])]
+
+    emit = find_method(events, "EventEmitter", "emit_on_method_error")
+    swallows = False
+    if len(emit.body) == 1 and isinstance(emit.body[0], ast.For):
+        loop = emit.body[0]
+        if len(loop.body) == 1 and isinstance(loop.body[0], ast.Try) and not calls_in_order(loop.iter):
+            tr = loop.body[0]
+            swallows = (len(tr.handlers) == 1 and handler_types(tr.handlers[0]) == ["Exception"]
+                        and all(is_structural(dotted(c.func)) for s in tr.handlers[0].body for c in calls_in_order(s))
+                        and not any(isinstance(n, ast.Raise) for n in ast.walk(tr.handlers[0]))
+                        and not tr.orelse and not tr.finalbody)
+
     # the wrapper `PInterpreter.visit`: does the handler around the concrete visit set node.failed?
     visit = find_method(interp, "PInterpreter", "visit")
     wrapper_ok = False
@@ -106,21 +226,45 @@ def generate() -> Path:
                     txt = ast.unparse(h)
                     if "node.failed = True" in txt and "_last_error" in txt:
                         wrapper_ok = True
-    lines = ["/- GENERATED by harness/translators/tick_table.py from openpectus/engine/engine.py and",
-             "   openpectus/lang/exec/pinterpreter.py — do not edit. -/",
+    return {"calls": all_calls, "phases": phases, "set_error_calls": set_error_calls, "swallows": swallows,
+            "wrapper_ok": wrapper_ok}
+
+
+def generate() -> Path:
+    t = tables()
+    lines = ["/- GENERATED by harness/translators/tick_table.py from openpectus/engine/engine.py,",
+             "   openpectus/lang/exec/events.py and openpectus/lang/exec/pinterpreter.py — do not edit. -/",
              "namespace OPM.Gen.TickTable", "",
-             "structure Site where", "  callee : String", "  catches : List String",
-             "  handlersSetError : Bool", "deriving Repr, DecidableEq", ""]
-    for name, sites in tables.items():
-        lines.append(f"def {name} : List Site := [")
-        lines.append(",\n".join(
-            f"  ⟨{lean_str(c)}, [{', '.join(lean_str(t) for t in ts)}], {'true' if ok else 'false'}⟩"
-            for c, ts, ok in sites))
-        lines.append("]\n")
-    lines.append(f"def visitWrapperMarksFailed : Bool := {'true' if wrapper_ok else 'false'}\n")
+             "/-- guard under which a statement of the tick runs -/",
+             "inductive Cond where", "  | always | notRunning | started | runnable | unknown",
+             "deriving Repr, DecidableEq", "",
+             "/-- what the `except` bodies of the innermost enclosing `try` do -/",
+             "inductive Handler where", "  | none | setError | setErrorIfNone | other",
+             "deriving Repr, DecidableEq", "",
+             "structure Call where", "  fn : String", "  callee : String", "  catches : List String",
+             "  inHandler : Bool", "deriving Repr, DecidableEq", "",
+             "structure Phase where", "  fn : String", "  callee : String", "  cond : Cond",
+             "  catches : List String", "  handler : Handler", "  handlerReturns : Bool",
+             "deriving Repr, DecidableEq", ""]
+    lines.append("def allCalls : List Call := [")
+    lines.append(",\n".join(
+        f"  ⟨{lean_str(fn)}, {lean_str(c)}, [{', '.join(lean_str(x) for x in ts)}], {'true' if ih else 'false'}⟩"
+        for fn, c, ts, ih in t["calls"]))
+    lines.append("]\n")
+    lines.append("def tickPhases : List Phase := [")
+    lines.append(",\n".join(
+        f"  ⟨{lean_str(p['fn'])}, {lean_str(p['callee'])}, .{COND_TOKENS.get(p['cond'], 'unknown')}, "
+        f"[{', '.join(lean_str(x) for x in p['catches'])}], .{p['handler']}, {'true' if p['returns'] else 'false'}⟩"
+        for p in t["phases"]))
+    lines.append("]\n")
+    lines.append("def setErrorCalls : List String := [" + ", ".join(lean_str(c) for c in t["set_error_calls"]) + "]\n")
+    lines.append(f"def emitSwallows : Bool := {'true' if t['swallows'] else 'false'}\n")
+    lines.append(f"def visitWrapperMarksFailed : Bool := {'true' if t['wrapper_ok'] else 'false'}\n")
     lines.append("end OPM.Gen.TickTable\n")
     OUT.parent.mkdir(exist_ok=True)
-    OUT.write_text("\n".join(lines))
+    new = "\n".join(lines)
+    if not OUT.exists() or OUT.read_text() != new:
+        OUT.write_text(new)
     return OUT
 
 
